@@ -1,10 +1,7 @@
-// Command h is the implementation-side harness: it drives the real piko code with
+// Package core is the implementation-side harness runtime: an engine drives the real piko code with
 // operation lines and prints one canonical line per operation (plus ORACLE FAIL lines
 // computed directly on the implementation and a final STATS line).
-//
-//	h <engine> gen -seed S -n N -tier quick|thorough   ops to stdout
-//	h <engine> run  < ops                              outputs to stdout
-package main
+package core
 
 import (
 	"bufio"
@@ -14,7 +11,6 @@ import (
 	"math/rand"
 	"os"
 	"runtime/debug"
-	"sort"
 	"strings"
 )
 
@@ -44,40 +40,29 @@ func (o *Out) Fail(prop, clause, detail string) {
 func (o *Out) Count(k string) { o.Stats[k]++ }
 func (o *Out) Add(k string, n int) { o.Stats[k] += n }
 
-var engines = map[string]func() Engine{}
-
-func register(name string, f func() Engine) { engines[name] = f }
-
-func main() {
-	if len(os.Args) < 3 {
-		fmt.Fprintln(os.Stderr, "usage: h <engine> gen|run [flags]")
+// Main is the entry point of a per-engine binary `h-<engine>`:
+//
+//	h-<engine> gen -seed S -n N -tier quick|thorough   ops to stdout
+//	h-<engine> run  < ops                              outputs to stdout
+func Main(e Engine) {
+	if len(os.Args) < 2 {
+		fmt.Fprintln(os.Stderr, "usage: h-<engine> gen|run [flags]")
 		os.Exit(2)
 	}
-	mk, ok := engines[os.Args[1]]
-	if !ok {
-		var names []string
-		for n := range engines {
-			names = append(names, n)
-		}
-		sort.Strings(names)
-		fmt.Fprintf(os.Stderr, "unknown engine %q (have %v)\n", os.Args[1], names)
-		os.Exit(2)
-	}
-	e := mk()
 	w := bufio.NewWriterSize(os.Stdout, 1<<20)
 	defer w.Flush()
-	switch os.Args[2] {
+	switch os.Args[1] {
 	case "gen":
 		fs := flag.NewFlagSet("gen", flag.ExitOnError)
 		seed := fs.Int64("seed", 1, "seed")
 		n := fs.Int("n", 100, "cases")
 		tier := fs.String("tier", "quick", "tier")
-		_ = fs.Parse(os.Args[3:])
+		_ = fs.Parse(os.Args[2:])
 		e.Gen(rand.New(rand.NewSource(*seed)), *n, *tier, w)
 	case "run":
 		run(e, w)
 	default:
-		fmt.Fprintln(os.Stderr, "usage: h <engine> gen|run [flags]")
+		fmt.Fprintln(os.Stderr, "usage: h-<engine> gen|run [flags]")
 		os.Exit(2)
 	}
 }
